@@ -498,6 +498,77 @@ func init() {
 						}
 					}
 					rec(0, make([]bool, n))
+				case "known_plaintext_tail":
+					// Sessions of the same shape whose last field ends at every offset inside a cipher block are issued until the
+					// change of that field's last byte and of the frame checksum both fall into the last block; the ciphertext
+					// of that block is then XORed with (old plaintext XOR new plaintext).
+					for k := 0; k < 40 && instances < 3; k++ {
+						L := 200
+						switch cred {
+						case "cookie2":
+							L = thr[1] + 300
+						case "cookie3":
+							L = thr[2] + 300
+						}
+						s1 := vpMkSession(11, L, rng)
+						s1.PreferredUsername = "svc-guest-" + strings.Repeat("x", k) + "1"
+						s2 := *s1
+						s2.PreferredUsername = "svc-guest-" + strings.Repeat("x", k) + "7"
+						p1, err1 := s1.EncodeSessionState(vpPlainCipher{}, true)
+						p2, err2 := s2.EncodeSessionState(vpPlainCipher{}, true)
+						if err1 != nil || err2 != nil || len(p1) != len(p2) {
+							continue
+						}
+						d0 := -1
+						for i := range p1 {
+							if p1[i] != p2[i] {
+								d0 = i
+								break
+							}
+						}
+						if d0 < 0 || d0 < (len(p1)-1)/16*16 {
+							continue // the difference starts before the last block: rewriting would garble what follows
+						}
+						j := vpNewJar()
+						if _, _, err := w.saveVia(j, s1); err != nil {
+							continue
+						}
+						var names []string
+						var lens []int
+						jv := ""
+						for _, ck := range j.list() {
+							names = append(names, ck.Name)
+							lens = append(lens, len(ck.Value))
+							jv += ck.Value
+						}
+						fv := strings.Split(jv, "|")
+						if len(fv) != 3 {
+							continue
+						}
+						raw, err := base64.URLEncoding.DecodeString(fv[0])
+						if err != nil || len(raw) != 16+len(p1) {
+							continue
+						}
+						for i := d0; i < len(p1); i++ {
+							raw[16+i] ^= p1[i] ^ p2[i]
+						}
+						forged := base64.URLEncoding.EncodeToString(raw) + "|" + fv[1] + "|" + fv[2]
+						var hp []string
+						rest := forged
+						for i, n := range names {
+							m := lens[i]
+							if i == len(names)-1 || m > len(rest) {
+								m = len(rest)
+							}
+							hp = append(hp, n+"="+rest[:m])
+							rest = rest[m:]
+						}
+						// (control) the untouched cookie loads s1: the plaintext reconstruction is the real one
+						if got, err := w.proxy.sessionStore.Load(w.storeReq(j)); err != nil || !vpSessionsEqual(got, s1) {
+							continue
+						}
+						try(strings.Join(hp, "; "))
+					}
 				case "strip_envelope":
 					// the signed envelope removed: the payload alone, decoded or not, in every encoding the decoder might take
 					name0 := A.cookies[0][0]
@@ -579,3 +650,9 @@ func init() {
 func (w *vpWorld) storeReqRaw(req *http.Request) *http.Request {
 	return addScope(req, w.opts.ReverseProxy)
 }
+
+// vpPlainCipher: the identity "cipher" - EncodeSessionState with it yields the plaintext the real cipher encrypts
+type vpPlainCipher struct{}
+
+func (vpPlainCipher) Encrypt(v []byte) ([]byte, error) { return v, nil }
+func (vpPlainCipher) Decrypt(v []byte) ([]byte, error) { return v, nil }
